@@ -275,6 +275,9 @@ def anyPanic : List (Outcome St) → Bool
 def prefixes : List String := ["shape."]
 
 def handle (op : String) (fs : List (String × String)) : String :=
+  -- D: a table given as BYTES: whatever gtab.Read accepts must be applicable without a panic
+  -- (C07_no_panic for reader-delivered tables); the expected value does not depend on the bytes
+  if op == "shape.readsafe" then "ok" else
   match parseCase fs with
   | none => "bad-case"
   | some c =>
